@@ -162,7 +162,9 @@ class HistogramSpec(Spec):
     name = "histogram"
 
     def configs(self, tier):
-        return [{"n_components": n, "strategy": s, "append_outlier_bins": o} for n in (2, 3) for s in ("uniform", "quantile") for o in (False, True)]
+        base = [{"n_components": n, "strategy": s, "append_outlier_bins": o} for n in (2, 3) for s in ("uniform", "quantile") for o in (False, True)]
+        # bins that do not cover the real line: values outside the absolute range fall into no bin
+        return base + [{"n_components": 2, "strategy": "uniform", "append_outlier_bins": o, "absolute_range": (0.0, 20.0)} for o in (False, True)]
 
     def make(self, cfg):
         import vectorizers as V
@@ -172,7 +174,7 @@ class HistogramSpec(Spec):
         return [[[0.0, 1.0, 3.5], [2.0, 7.0]], [[0.5, 0.5, 10.0], []]]
 
     def pool(self, cfg, tier):
-        return [[], [1.0], [0.0, 10.0, 3.5], [-1e9, 1e9], [2.0, 2.0, 2.0, 7.0, 0.5, 1.0]]
+        return [[], [1.0], [0.0, 10.0, 3.5], [-1e9, 1e9], [2.0, 2.0, 2.0, 7.0, 0.5, 1.0], [-1.0, -2.0, 0.0, 20.0, 25.0]]
 
     def pack(self, items, cfg):
         return [np.array(x, dtype=np.float64) for x in items], {}
@@ -307,6 +309,21 @@ class SinkhornFarSpec(SinkhornSpec):
         return sp.csr_matrix(np.array(items, dtype=np.float64).reshape(len(items), 5)), {"vectors": VEC5.copy()}
 
 
+VEC5M = np.vstack([VEC4, [[60.0, 60.0]]])
+
+
+class SinkhornMidSpec(SinkhornFarSpec):
+    """a support vector at distance ~85: costs well above 50 but far from the underflow of exp(-cost) (~745), so the
+    Sinkhorn iterations stay finite and every row must be independent of its chunk companions"""
+    name = "sinkhorn_mid"
+
+    def pool(self, cfg, tier):
+        return [[0, 0, 0, 1, 1], [1, 2, 0, 1, 0], [0, 3, 1, 0, 0], [1, 0, 0, 0, 2]]
+
+    def pack(self, items, cfg):
+        return sp.csr_matrix(np.array(items, dtype=np.float64).reshape(len(items), 5)), {"vectors": VEC5M.copy()}
+
+
 class ApproxWassersteinSpec(WassersteinSpec):
     name = "approx_wasserstein"
     tol = 1e-9
@@ -399,13 +416,15 @@ class SlidingWindowSpec(Spec):
         return [[[1.0, 2.0, 4.0, 8.0], [16.0, 32.0, 64.0]]]
 
     def pool(self, cfg, tier):
-        return [[1.0, 2.0, 4.0], [3.0, 9.0, 27.0, 81.0, 243.0], [5.0, 5.0, 5.0, 5.0], [1.0, 2.0, 4.0, 8.0, 16.0, 32.0, 64.0]]
+        # the first item is an INTEGER sequence (lists of Python ints keep an integer dtype), the others are floats with
+        # fractional parts: a batch must not borrow its dtype from a neighbour
+        return [[1, 2, 4, 7], [3.5, 9.25, 27.0, 81.5, 243.0], [5.0, 5.0, 5.0, 5.0], [1.5, 2.0, 4.0, 8.0, 16.0, 32.0, 64.0]]
 
     def pack(self, items, cfg):
-        return [np.array(x, dtype=np.float64) for x in items], {}
+        return [np.array(x, dtype=(np.int64 if all(isinstance(v, int) for v in x) else np.float64)) for x in items], {}
 
     def rows(self, out, n):
-        return [np.asarray(r) for r in out]
+        return [np.asarray(r, dtype=np.float64) for r in out]
 
     def width(self, est, cfg):
         return None
@@ -448,7 +467,7 @@ ROW_WISE = [NgramSpec(), SkipgramSpec(), LZSpec(), BPESpec(), HistogramSpec(), K
             WassersteinSpec(), WassersteinLilSpec(), SinkhornSpec(), ApproxWassersteinSpec(), InfoWeightSpec(),
             RowDenoiseSpec(), CountCompressionSpec(), SlidingWindowSpec()]
 COMPILED_ONLY = [LZHashedSpec()]
-EXTRA = [SinkhornFarSpec()]
+EXTRA = [SinkhornFarSpec(), SinkhornMidSpec()]
 SIDE_EFFECT = [InfoWeightUnsortedSpec(), RowDenoiseExplicitZeroSpec()]
 BY_NAME = {s.name: s for s in ROW_WISE + COMPILED_ONLY + EXTRA + SIDE_EFFECT}
 
